@@ -14,6 +14,7 @@ import (
 	"os"
 	"strings"
 	"sync"
+	"time"
 )
 
 type replayFile struct {
@@ -204,3 +205,6 @@ func TempDir() string {
 	}
 	return d
 }
+
+// Settle lets every other goroutine run until it has finished or is blocked (natively: a short sleep).
+func Settle() { time.Sleep(100 * time.Millisecond) }
